@@ -1,0 +1,14 @@
+//go:build verif
+
+package file
+
+// VerifHook, when set, is called at the points of the file store where the on-disk state is
+// about to change or has just changed (site names are listed in the verification design
+// document).  Verification hook: compiled only with the "verif" build tag.
+var VerifHook func(site, path string)
+
+func verifPoint(site, path string) {
+	if h := VerifHook; h != nil {
+		h(site, path)
+	}
+}
